@@ -478,8 +478,15 @@ impl Check for C20 {
                 Some(s) => s,
                 None => continue,
             };
-            let life_end = info.peer_close.map(|x| x.1).unwrap_or(end).min(end);
             let client_close = info.client_close.map(|x| x.1);
+            // the peer's close only bounds the obligation when the peer left first (a peer end
+            // closing after the client closed is a reaction, not a departure)
+            let peer_left_first = match (info.peer_close, info.client_close) {
+                (Some(p), Some(c)) => p.0 < c.0,
+                (Some(_), None) => true,
+                _ => false,
+            };
+            let life_end = if peer_left_first { info.peer_close.map(|x| x.1).unwrap_or(end).min(end) } else { end };
             if life_end.saturating_sub(info.open_ms) >= 361_000 {
                 vd.nontrivial = true;
                 vd.probe("connection_lived_361s");
